@@ -785,36 +785,29 @@ def group_paths(spec):
 
 
 def groups_with_cycles(spec):
-    """groups whose direct children (subgroups condensed) are connected cyclically"""
+    """groups that need an iterative solver: some connection among the group's direct children (subgroups
+    condensed) runs from a later child to an earlier one in execution order (a one-pass evaluation of such
+    a group is not converged, whether or not the backward edge closes a cycle)"""
     edges = comp_graph(spec)
     res = []
     for g in group_paths(spec):
         gl = len(g.split('.')) if g else 0
+        order = []
+        for c in spec['comps']:
+            P = c['path'].split('.')
+            if (not g or '.'.join(P[:gl]) == g) and len(P) > gl and P[gl] not in order:
+                order.append(P[gl])
 
         def child(ci):
             P = spec['comps'][ci]['path'].split('.')
             if g and '.'.join(P[:gl]) != g:
                 return None
             return P[gl]
-        E = set()
         for a, b in edges:
             ca, cb = child(a), child(b)
-            if ca is not None and cb is not None and ca != cb:
-                E.add((ca, cb))
-        nodes = {x for e in E for x in e}
-        # cycle detection
-        adj = {x: [b for a, b in E if a == x] for x in nodes}
-        color = {}
-
-        def dfs(x):
-            color[x] = 1
-            for y in adj[x]:
-                if color.get(y) == 1 or (y not in color and dfs(y)):
-                    return True
-            color[x] = 2
-            return False
-        if any(x not in color and dfs(x) for x in nodes):
-            res.append(g)
+            if ca is not None and cb is not None and ca != cb and order.index(ca) > order.index(cb):
+                res.append(g)
+                break
     return res
 
 
